@@ -406,7 +406,9 @@ def parse_stmt(s):
         return None
     if s.startswith('assume('):
         return None
-    lhs, rhs = s[:-1].split(' = ', 1)
+    body = s[:-1]
+    k = top_find(body, ' = ') if body.startswith('(') else None          # `(place: impl Future<Output = ..>) = ..`
+    lhs, rhs = (body[:k], body[k + 3:]) if k is not None else body.split(' = ', 1)
     m = re.fullmatch(r'discriminant\((.+)\)', lhs)
     if m:
         return ('setdiscr', parse_place(m.group(1)), int(rhs))
